@@ -205,10 +205,11 @@ func (dc *DomConverter) visitElementNodeHandler(node *html.Node) bool {
 			return false
 		}
 
-		// Figures may be put into the output as a whole, without their descendants
-		// being visited: skip the unlikely candidates inside them now. (The same is
-		// done for a data table, once it is known to be one.)
-		if tagName == "figure" {
+		// Figures, pictures and embeds (e.g. a tweet quote) may be put into the output
+		// as a whole, without their descendants being visited: skip the unlikely
+		// candidates inside them now. (The same is done for a data table, once it is
+		// known to be one.)
+		if _, isEmbed := dc.embedTagNames[tagName]; isEmbed {
 			removeUnlikelyDescendants(node)
 		}
 	}
